@@ -308,3 +308,9 @@ def r_custom_jvp(ctx, eqn, *args):
     return eval_jaxpr(ctx, j, j.consts, *args)
 RULES['custom_jvp_call'] = r_custom_jvp
 RULES['add_any'] = ew(lambda a, b: a + b)
+
+def r_slice(ctx, eqn, a):
+    a = np.asarray(a, dtype=object)
+    st = eqn.params['start_indices']; li = eqn.params['limit_indices']; sr = eqn.params['strides'] or (1,) * a.ndim
+    return a[tuple(slice(s, l, k) for s, l, k in zip(st, li, sr))]
+RULES['slice'] = r_slice
